@@ -1,5 +1,6 @@
 // Unit `etag`: src/etag.rs weak_eq / strong_eq / List::next against the byte-level RFC 7232 specification
 // (specs/etag_spec.rs).  These discharge the callee contracts used by units `cond` and `glue`.
+#![feature(allocator_api)]
 use vstd::prelude::*;
 verus! {
 
